@@ -8,7 +8,7 @@ composition invariant survives the choice.
 namespace Chewing.C01
 open Chewing Chewing.C04 Chewing.C05 Chewing.C06
 
-variable {D L : Type} {env : Env D L} {G : D → Prop}
+variable {D L : Type} {env : Env D L} {G : D → Prop} {w : Prop}
 
 /-- the list is not a symbol *table* (`SymbolSelector`, whose tables come from `symbols.dat`) -/
 def selNoTable (s : Selecting) : Prop := ∀ y, s.sel ≠ .symbol y
@@ -22,8 +22,8 @@ theorem allSyl_slice {c : Composition} {b e : Nat} (h : AllSyl c b e) :
   rw [hk] at h3; cases h3
   simp [Sym.isSyl]
 
-theorem phraseCandidates_ok (hE : EnvOK env G) {sh : Shared D L} (h : ShInv env G sh) {p : PhraseSel}
-    (hp : PhraseOK env sh p) :
+theorem phraseCandidates_ok (hE : EnvOK env G) {sh : Shared D L} (h : ShInv env G w sh) {p : PhraseSel}
+    (hp : PhraseOK env w sh p) :
     OkAnd (fun cs => ∀ t ∈ cs, t.length = p.end_ - p.begin_) (PhraseSel.candidates env p sh.dict sh.syl) := by
   unfold PhraseSel.candidates
   rw [sliceSyms_ok (Nat.le_of_lt hp.lt) hp.le]
@@ -92,8 +92,8 @@ theorem symSelect_ok {y : SymSel} (hy : SymWF y) (n : Nat) :
     | none => rw [hx] at hh; cases hh
     | some v => rw [hx] at hh; simp only [Option.map_some, Option.some.injEq] at hh; rw [← hh]; rfl
 
-theorem candidates_ok (hE : EnvOK env G) {sh : Shared D L} (h : ShInv env G sh) {s : Selecting}
-    (hs : SelInv env sh s) : OkAnd (fun _ => True) (Selecting.candidates env s sh) := by
+theorem candidates_ok (hE : EnvOK env G) {sh : Shared D L} (h : ShInv env G w sh) {s : Selecting}
+    (hs : SelInv env w sh s) : OkAnd (fun _ => True) (Selecting.candidates env s sh) := by
   unfold Selecting.candidates
   have h1 := hs.sel
   split
@@ -105,8 +105,8 @@ theorem candidates_ok (hE : EnvOK env G) {sh : Shared D L} (h : ShInv env G sh) 
     | syl k => simp [Sym.isSyl] at h1
     | chr ch => obtain ⟨l, hl⟩ := specialMenu_chr ch; rw [hl]; exact .ok trivial
 
-theorem totalPage_ok (hE : EnvOK env G) {sh : Shared D L} (h : ShInv env G sh) {s : Selecting}
-    (hs : SelInv env sh s) : OkAnd (fun _ => True) (Selecting.totalPage env s sh) := by
+theorem totalPage_ok (hE : EnvOK env G) {sh : Shared D L} (h : ShInv env G w sh) {s : Selecting}
+    (hs : SelInv env w sh s) : OkAnd (fun _ => True) (Selecting.totalPage env s sh) := by
   obtain ⟨cs, hq, _⟩ := candidates_ok hE h hs
   unfold Selecting.totalPage
   rw [hq]
@@ -115,11 +115,11 @@ theorem totalPage_ok (hE : EnvOK env G) {sh : Shared D L} (h : ShInv env G sh) {
   exact .ok trivial
 
 /-- changing the page number keeps the list invariant -/
-theorem SelInv.page {sh : Shared D L} {s : Selecting} (hs : SelInv env sh s) (n : Nat) :
-    SelInv env sh { s with pageNo := n } := ⟨hs.sel, hs.repl⟩
+theorem SelInv.page {sh : Shared D L} {s : Selecting} (hs : SelInv env w sh s) (n : Nat) :
+    SelInv env w sh { s with pageNo := n } := ⟨hs.sel, hs.repl⟩
 
-theorem selPrevPage_ok (hE : EnvOK env G) {sh : Shared D L} (h : ShInv env G sh) {s : Selecting}
-    (hs : SelInv env sh s) : SelResOK env G (selPrevPage env s sh) := by
+theorem selPrevPage_ok (hE : EnvOK env G) {sh : Shared D L} (h : ShInv env G w sh) {s : Selecting}
+    (hs : SelInv env w sh s) : SelResOK env G w (selPrevPage env s sh) := by
   unfold selPrevPage
   split
   · exact .ok ⟨h, fun _ _ => hs.page _, fun st hst => (by cases hst)⟩
@@ -127,8 +127,8 @@ theorem selPrevPage_ok (hE : EnvOK env G) {sh : Shared D L} (h : ShInv env G sh)
     rw [hq]
     exact .ok ⟨h, fun _ _ => hs.page _, fun st hst => (by cases hst)⟩
 
-theorem selNextPage_ok (hE : EnvOK env G) {sh : Shared D L} (h : ShInv env G sh) {s : Selecting}
-    (hs : SelInv env sh s) : SelResOK env G (selNextPage env s sh) := by
+theorem selNextPage_ok (hE : EnvOK env G) {sh : Shared D L} (h : ShInv env G w sh) {s : Selecting}
+    (hs : SelInv env w sh s) : SelResOK env G w (selNextPage env s sh) := by
   obtain ⟨tp, hq, _⟩ := totalPage_ok hE h hs
   unfold selNextPage
   rw [hq]
@@ -140,20 +140,20 @@ theorem selNextPage_ok (hE : EnvOK env G) {sh : Shared D L} (h : ShInv env G sh)
 /-! ## choosing a candidate -/
 
 /-- result of `Selecting::select` -/
-def SelectOK (env : Env D L) (G : D → Prop) (r : Outcome (Selecting × Shared D L × Trans)) : Prop :=
-  OkAnd (fun x => ShInv env G x.2.1 ∧ (∀ b, x.2.2 = .spin b → SelInv env x.2.1 x.1) ∧
-    ∀ st, x.2.2 = .toState st → StInv env x.2.1 st) r
+def SelectOK (env : Env D L) (G : D → Prop) (w : Prop) (r : Outcome (Selecting × Shared D L × Trans)) : Prop :=
+  OkAnd (fun x => ShInv env G w x.2.1 ∧ (∀ b, x.2.2 = .spin b → SelInv env w x.2.1 x.1) ∧
+    ∀ st, x.2.2 = .toState st → StInv env w x.2.1 st) r
 
-theorem select_ok (hE : EnvOK env G) {sh : Shared D L} (h : ShInv env G sh) {s : Selecting}
-    (hs : SelInv env sh s) (n : Nat) : SelectOK env G (Selecting.select env s sh n) := by
-  have hpop : ∀ c : CompEditor, CedPostC sh.com c → ShInv env G { sh with com := c.popCursor } := by
+theorem select_ok (hE : EnvOK env G) {sh : Shared D L} (h : ShInv env G w sh) {s : Selecting}
+    (hs : SelInv env w sh s) (n : Nat) : SelectOK env G w (Selecting.select env s sh n) := by
+  have hpop : ∀ c : CompEditor, CedPostC sh.com c → ShInv env G w { sh with com := c.popCursor } := by
     intro c hc
     have h1 := h.setComC hc
     exact (h1.setComSame (ced_popCursor h1.ced) (by rw [popCursor_inner])).congr rfl rfl rfl rfl rfl rfl
-  have hins : ∀ x : Nat, OkAnd (fun c => ShInv env G { sh with com := c.popCursor }) (sh.com.insert (.chr x)) :=
+  have hins : ∀ x : Nat, OkAnd (fun c => ShInv env G w { sh with com := c.popCursor }) (sh.com.insert (.chr x)) :=
     fun x => (insertChr_ok h.ced x).mono (fun c hc => hpop c hc)
   have hrep : ∀ x : Nat, s.action = .replace → (∀ p, s.sel ≠ .phrase p) →
-      OkAnd (fun c => ShInv env G { sh with com := c.popCursor }) (sh.com.replace (.chr x)) := by
+      OkAnd (fun c => ShInv env G w { sh with com := c.popCursor }) (sh.com.replace (.chr x)) := by
     intro x hact hnp
     obtain ⟨ch', hch'⟩ : ∃ ch', sh.com.inner.symbols[sh.com.cursor]? = some (Sym.chr ch') := by
       rcases hs.repl hact with ⟨p, hp⟩ | hh
